@@ -13,24 +13,24 @@ namespace GcpVerif.ME
 /-! ## C13 -/
 
 /-- C13.1 `Current()` always names an endpoint of the most recently accepted list. -/
-theorem c13_mem_holds {s : St} (h : Reach s) (op : Op) : c13_mem (step s op).1 = true := by
+theorem c13_mem_holds {s : St} (h : Reach s) (op : Op) : c13_mem (stepRaw s op).1 = true := by
   have hi := inv_step (reach_inv h) op
   obtain ⟨c, hc⟩ := hi.curMem
   exact findEp_isSome_iff.mpr ⟨c, hc⟩
 
 /-- C13.1 also holds right after construction. -/
 theorem c13_mem_init {r d : Int} {l : List String} {s : St} (hr : 0 ≤ r) (hd : 0 ≤ d)
-    (h : init r d l = some s) : c13_mem s = true := by
+    (h : initRaw r d l = some s) : c13_mem s = true := by
   obtain ⟨c, hc⟩ := (inv_init hr hd h).curMem
   exact findEp_isSome_iff.mpr ⟨c, hc⟩
 
 /-- C13.2 when the triggering call returns, a current endpoint that is known to be unavailable
     coexists with no available endpoint. -/
 theorem c13_unavail_excluded_holds {s : St} (h : Reach s) (op : Op) :
-    c13_unavail_excluded (step s op).1 = true := by
+    c13_unavail_excluded (stepRaw s op).1 = true := by
   have hi := inv_step (reach_inv h) op
   unfold c13_unavail_excluded
-  cases hc : findEp (step s op).1.eps (step s op).1.current with
+  cases hc : findEp (stepRaw s op).1.eps (stepRaw s op).1.current with
   | none => rfl
   | some c =>
     simp only
@@ -42,12 +42,12 @@ theorem c13_unavail_excluded_holds {s : St} (h : Reach s) (op : Op) :
 
 /-- C13.6 an empty endpoint list is rejected and changes nothing; a non-empty one is accepted. -/
 theorem c13_empty_holds (s : St) (op : Op) :
-    c13_empty s op (step s op).2 (step s op).1 = true := by
+    c13_empty s op (stepRaw s op).2 (stepRaw s op).1 = true := by
   cases op with
   | setEndpoints l =>
     cases l with
-    | nil => simp [c13_empty, step, opSetEndpoints, obsEq]
-    | cons x xs => simp [c13_empty, step, opSetEndpoints]
+    | nil => simp [c13_empty, stepRaw, opSetEndpoints, obsEq]
+    | cons x xs => simp [c13_empty, stepRaw, opSetEndpoints]
   | _ => rfl
 
 /-! ### facts about `nextCur` (the effect of maybeUpdateCurrent on `current`) -/
@@ -177,21 +177,21 @@ theorem nextCur_switch_top (hne : nextCur eps cur d ≠ cur) (hav : anyAvail eps
 
 end nextCur
 
-/-! ### step theorems that do not need timer invariants -/
+/-! ### stepRaw theorems that do not need timer invariants -/
 
 /-- C13.4 if no endpoint is available after an operation, `current` is unchanged, unless it was
     removed from the list — then it is the list's top-priority endpoint. -/
 theorem c13_noavail_holds {s : St} (h : Reach s) (op : Op) :
-    c13_noavail s (step s op).1 = true := by
+    c13_noavail s (stepRaw s op).1 = true := by
   have hi := reach_inv h
   unfold c13_noavail
-  by_cases hna : anyAvail (step s op).1.eps = true
+  by_cases hna : anyAvail (stepRaw s op).1.eps = true
   · simp [hna]
-  · have hna' : anyAvail (step s op).1.eps = false := by simpa using hna
+  · have hna' : anyAvail (stepRaw s op).1.eps = false := by simpa using hna
     simp only [hna', Bool.false_eq_true, ↓reduceIte]
     cases step_shape hi op with
     | idle he hc _ _ _ =>
-      have : s.current ∈ ids (step s op).1.eps := by
+      have : s.current ∈ ids (stepRaw s op).1.eps := by
         rw [he]; simpa using findEp_isSome_iff.mpr hi.curMem
       simp [this, hc]
     | muc s1 hb hc1 _ hd1 heq =>
@@ -218,14 +218,14 @@ theorem c13_noavail_holds {s : St} (h : Reach s) (op : Op) :
 /-- C14.2 a recovering current endpoint stays current as long as no higher-priority endpoint is
     available (the only ways out are its own recovery timer making it unavailable, or removal). -/
 theorem c14_stays_holds {s : St} (h : Reach s) (op : Op) :
-    c14_stays s (step s op).1 = true := by
+    c14_stays s (stepRaw s op).1 = true := by
   have hi := reach_inv h
   unfold c14_stays
-  cases hc : findEp (step s op).1.eps s.current with
+  cases hc : findEp (stepRaw s op).1.eps s.current with
   | none => rfl
   | some c =>
     simp only
-    by_cases hcond : (c.status == .recovering && !higherAvail (step s op).1.eps c.prio) = true
+    by_cases hcond : (c.status == .recovering && !higherAvail (stepRaw s op).1.eps c.prio) = true
     · simp only [hcond, ↓reduceIte, beq_iff_eq]
       simp only [Bool.and_eq_true, beq_iff_eq, Bool.not_eq_true'] at hcond
       cases step_shape hi op with
@@ -263,17 +263,17 @@ theorem c14_stays_holds {s : St} (h : Reach s) (op : Op) :
 /-- C14.5 with a switching delay, no report and no list replacement moves `current` away from an
     endpoint that is still in the list and available or recovering, inside that very call. -/
 theorem c14_no_preempt_holds {s : St} (h : Reach s) (op : Op) :
-    c14_no_preempt s op (step s op).1 = true := by
+    c14_no_preempt s op (stepRaw s op).1 = true := by
   have hi := reach_inv h
   unfold c14_no_preempt
   by_cases hd : s.d = 0
   · simp [hd]
-  · cases hc : findEp (step s op).1.eps s.current with
+  · cases hc : findEp (stepRaw s op).1.eps s.current with
     | none => simp
     | some c =>
       by_cases hst : c.status = .unavailable
       · simp [hst]
-      · have hgoal : (step s op).1.current = s.current ∨ isApiCall op = false := by
+      · have hgoal : (stepRaw s op).1.current = s.current ∨ isApiCall op = false := by
           cases step_shape hi op with
           | idle _ hcur _ _ _ => exact Or.inl hcur
           | muc s1 hb hc1 _ hd1 heq =>
@@ -289,18 +289,18 @@ theorem c14_no_preempt_holds {s : St} (h : Reach s) (op : Op) :
 
 /-- C14.6 `current` never moves from an endpoint that is available to a lower-priority one. -/
 theorem c14_no_downgrade_holds {s : St} (h : Reach s) (op : Op) :
-    c14_no_downgrade s (step s op).1 = true := by
+    c14_no_downgrade s (stepRaw s op).1 = true := by
   have hi := reach_inv h
   unfold c14_no_downgrade
-  by_cases hne : (step s op).1.current = s.current
+  by_cases hne : (stepRaw s op).1.current = s.current
   · simp [hne]
-  · have hne' : (s.current != (step s op).1.current) = true := by
+  · have hne' : (s.current != (stepRaw s op).1.current) = true := by
       simp only [bne_iff_ne, ne_eq]; exact fun h => hne h.symm
     simp only [hne', ↓reduceIte]
-    cases hc : findEp (step s op).1.eps s.current with
+    cases hc : findEp (stepRaw s op).1.eps s.current with
     | none => rfl
     | some c =>
-      cases hn : findEp (step s op).1.eps (step s op).1.current with
+      cases hn : findEp (stepRaw s op).1.eps (stepRaw s op).1.current with
       | none => rfl
       | some n =>
         simp only
@@ -339,10 +339,10 @@ theorem c14_no_downgrade_holds {s : St} (h : Reach s) (op : Op) :
           simp [this]
 
 /-- only a timer that is due can fire (so a recovery window lasts the full timeout) -/
-theorem c14_fire_due_holds (s : St) (op : Op) : c14_fire_due s op (step s op).2 = true := by
+theorem c14_fire_due_holds (s : St) (op : Op) : c14_fire_due s op (stepRaw s op).2 = true := by
   cases op with
   | fire tid =>
-    simp only [c14_fire_due, step, opFire]
+    simp only [c14_fire_due, stepRaw, opFire]
     cases hfind : s.timers.find? (fun t => t.tid == tid) with
     | none => simp
     | some t =>
@@ -353,12 +353,12 @@ theorem c14_fire_due_holds (s : St) (op : Op) : c14_fire_due s op (step s op).2 
       · simp [hcan]
   | _ => rfl
 
-/-! ## non-vacuity: a concrete run reaches the interesting hypotheses -/
+/-! ## non-vacuity: a concrete runRaw reaches the interesting hypotheses -/
 
 /-- a reachable state with a recovering, protected current endpoint and an available
     lower-priority endpoint (the premise of C14.2), checked by evaluation -/
 example :
-    let s := run ((init 20 40 ["a", "b"]).get (by decide)) [.setAvail "a" true, .setAvail "b" true, .setAvail "a" false]
+    let s := runRaw ((initRaw 20 40 ["a", "b"]).get (by decide)) [.setAvail "a" true, .setAvail "b" true, .setAvail "a" false]
     (findEp s.eps s.current).map (·.status) = some .recovering ∧ anyAvail s.eps = true ∧ s.current = "a" := by
   decide
 
